@@ -1025,6 +1025,10 @@ def termination(ctx):
                         mentions(last, lambda s: s[0] == "field" and s[2] == 1 and is_call(strip_refs(s[1]), "str>::split_at")) and \
                         mentions(m, lambda s: is_index_call(s) and agg_variant(call_args(s)[1]) and const_int(agg_variant(call_args(s)[1])[2][0]) == 1)
                 ok = ok and okf
+            if not ok:
+                # any other spelling of the same expansion: C04's normal form (prefix + one alternative of the text strictly between the right-most '{'
+                # and the first '}' after it + suffix) has one '{' fewer; its rules are re-evaluated on this tree
+                ok = not required_rules_failing(ctx, "C04", ["D1-BRACE-PAIR", "D2-EXPANSION", "D3-SKIP-INVALID"])
             ctx.check(ok, "TERM-RECURSION", "+".join(c), "measure:brace-count-decreases", "each recursive call drops one '{' and one '}'",
                       "the recursive call's pattern is not the original with one brace pair removed: recursion may not terminate", fn_span(body))
             # structural causes of slowness / deep recursion
